@@ -29,7 +29,12 @@ Cases ==
   \* when Destroy comes, so it must return an error -- it cannot have completed
   \cup { [runner |-> r, prog |-> p, at |-> a, nfiles |-> 3, destroy |-> TRUE, frozen |-> TRUE, rep |-> k] :
             r \in {"container", "container-sa"}, p \in {"sleep", "open", "ping", "reset", "delete"}, a \in {0, 20}, k \in 1..Reps }
-ASSUME ndJsonSerialize("cases.ndjson", SetToSeq(Cases))
+\* the transport breaks between a cancellation and the container's answer to the kill (init stopped, so the
+\* answer is certainly outstanding): cancel at `at`, Destroy 60 ms later -- the call must still return
+CancelThenLoss ==
+  { [runner |-> r, prog |-> "sleep", at |-> a, nfiles |-> 3, destroy |-> TRUE, frozen |-> TRUE, rep |-> 300 + k] :
+      r \in {"container", "container-sa"}, a \in {30, 80}, k \in 1..Reps }
+ASSUME ndJsonSerialize("cases.ndjson", SetToSeq(Cases \cup CancelThenLoss))
 VARIABLE x
 Init == x = 0
 Next == UNCHANGED x
